@@ -37,7 +37,10 @@ def uses_of_local(fn, local):
     return out
 
 
-def result_is_checked(fn, c):
+ERROR_DISCARDING = ("unwrap_or", "unwrap_or_default", "unwrap_or_else", "ok", "is_ok", "is_err", "map_or", "map_or_else", "iter", "unwrap_unchecked", "is_ok_and")
+
+
+def result_is_checked(fn, c, strict=False):
     """The Result produced by call site c is consumed: branched on (`?`, match,
     if let), passed on to another call (map_err, and_then, …) or returned.
     A result that is only dropped is not checked."""
@@ -56,7 +59,12 @@ def result_is_checked(fn, c):
         if l == 0:
             return True
         for (b, kind) in uses_of_local(fn, l):
-            if kind.startswith("arg:") or kind == "switch":
+            if kind.startswith("arg:"):
+                nm = kind[4:]
+                if strict and nm.startswith("core::result::Result::<T, E>::") and nm.rsplit("::", 1)[-1] in ERROR_DISCARDING:
+                    continue  # the error is thrown away by this combinator
+                return True
+            if kind == "switch":
                 return True
             # copied/moved into another local or discriminant read
             for s in fn.stmts(b):
